@@ -218,6 +218,11 @@ class Walker:
                 return ("name" if node.slice.value == 0 else "desc", base[1], base[2])
         if isinstance(node, ast.Tuple):
             return ("tuple", tuple(self.sym(x, env) for x in node.elts))
+        if isinstance(node, ast.Call) and isinstance(node.func, ast.Attribute) and isinstance(node.func.value, ast.Name) \
+                and node.func.value.id in getattr(self, "table_methods", {}) and node.func.value.id not in env \
+                and node.func.attr == self.table_methods[node.func.value.id][0] and len(node.args) == 1 and not node.keywords:
+            # a table object's lookup: the row at `code & mask` (the method's shape is checked by N2)
+            return ("row", node.func.value.id, ("and", self.sym(node.args[0], env), self.table_methods[node.func.value.id][1]))
         if isinstance(node, ast.Call) and isinstance(node.func, ast.Attribute) and node.func.attr in ("lower", "upper", "title", "capitalize") \
                 and not node.args:
             v = self.sym(node.func.value, env)
@@ -645,13 +650,18 @@ def check(run, project):
                and not any(isinstance(d, ast.Name) and d.id in ("property", "staticmethod", "classmethod") for d in f.decorator_list)}
     enums = {c.name for c in mod.tree.body if isinstance(c, ast.ClassDef) and any(norm(b) in ("Enum", "enum.Enum", "IntEnum", "enum.IntEnum")
                                                                                    for b in c.bases)}
+    table_object.methods = {}
+    for t_ in TABLES:
+        table_object(M.force(env.get(t_)), t_)
     wf = Walker(consts, mod, fns["__format__"], helpers)
     wf.methods = methods
     wf.enums = enums
+    wf.table_methods = dict(table_object.methods)
     wf.walk(fns["__format__"].body, {}, [], [])
     wa = Walker(consts, mod, fns["attributes"], helpers)
     wa.methods = methods
     wa.enums = enums
+    wa.table_methods = dict(table_object.methods)
     wa.walk(fns["attributes"].body, {}, [], [])
     # masks tested by conditions live in the low 12 bits (so the low-12 enumeration is exhaustive)
     for w in (wf, wa):
@@ -795,6 +805,34 @@ def _numbers(s):
 
 
 # ------------------------------------------------------------------------------ N2
+def table_object(v, name):
+    """(rows, mask, unknown row) when the model value is a table object: an instance of a plain class that keeps a tuple of
+    (name, description) rows and an integer mask, and whose one public method returns `self.<rows>[<code> & self.<mask>]`"""
+    from ..specmodel import InstanceV, TupleV, FuncV
+    if not isinstance(v, InstanceV):
+        return None
+    tup = [k for k, x in v.attrs.items() if isinstance(x, TupleV)]
+    ints = [k for k, x in v.attrs.items() if isinstance(x, int) and not isinstance(x, bool)]
+    if len(tup) != 1 or len(ints) != 1:
+        raise AnalysisError(f"N2: {name} is an object whose rows / mask are not recognisable")
+    lookups = [f for k, f in v.cls.ns.items() if isinstance(f, FuncV) and not k.startswith("_")]
+    if len(lookups) != 1 or len(lookups[0].node.args.args) != 2:
+        raise AnalysisError(f"N2: the lookup method of {name} is not recognisable")
+    f = lookups[0].node
+    me, code = (a.arg for a in f.args.args)
+    body = [st for st in f.body if not (isinstance(st, ast.Expr) and isinstance(st.value, ast.Constant))]
+    ok = len(body) == 1 and isinstance(body[0], ast.Return) and norm(body[0].value) in (
+        f"{me}.{tup[0]}[{code} & {me}.{ints[0]}]", f"{me}.{tup[0]}[{me}.{ints[0]} & {code}]")
+    if not ok:
+        raise AnalysisError(f"N2: {name}.{f.name} is not `rows[code & mask]`")
+    unknown = next((x for x in (v.cls.lookup(k) for k in v.cls.ns) if isinstance(x, TupleV) and len(x.items) == 2), None)
+    table_object.methods[name] = (f.name, v.attrs[ints[0]])
+    return list(v.attrs[tup[0]].items), v.attrs[ints[0]], unknown
+
+
+table_object.methods = {}
+
+
 def n2(run, mod, M):
     if not os.path.exists(PINNED):
         raise AnalysisError(f"pinned RC tables missing: {PINNED}")
@@ -802,6 +840,32 @@ def n2(run, mod, M):
     env = M.env(MOD)
     for t in TABLES:
         dv = M.force(env.get(t))
+        obj = table_object(dv, t)
+        if obj is not None:
+            # a table object (rows flattened into a tuple, looked up by `code & mask`): every number the mask can produce
+            # needs a row, the rows that are not the "unknown" row are the name table
+            rows, mask, unknown = obj
+            tnode = next((st_ for st_ in mod.tree.body if isinstance(st_, ast.Assign) and any(isinstance(x_, ast.Name) and x_.id == t for x_ in st_.targets)), mod.tree)
+            run.ob("N2", len(rows) == mask + 1, f"{t}: one row per code number (0..{mask:#x})",
+                   f"{t} holds {len(rows)} rows but is indexed with `code & {mask:#x}`: " +
+                   (f"looking up the code numbers {len(rows):#x}..{mask:#x} raises IndexError (str() and attributes() of those codes fail)"
+                    if len(rows) <= mask else "rows beyond the mask are never reached"), module=mod, node=tnode, func=t,
+                   construct=f"{t} rows")
+            want = {int(k): v for k, v in pinned[t].items()}
+            cur = {}
+            for i_, r_ in enumerate(rows):
+                if not (hasattr(r_, "items") and len(r_.items) == 2 and isinstance(r_.items[0], str)):
+                    raise AnalysisError(f"N2: {t} row {i_:#x} is not a (name, description) pair")
+                if unknown is None or list(r_.items) != list(unknown.items):
+                    cur[i_] = r_.items[0]
+            for k in sorted(set(want) | set(cur)):
+                run.ob("N2", want.get(k) == cur.get(k), f"{t}[{k:#05x}] = {want.get(k)}",
+                       f"name table differs from the pinned TPM 2.0 names: pinned {want.get(k)!r}, now {cur.get(k)!r}",
+                       module=mod, node=tnode, func=t, construct=f"{t}[{k:#x}]")
+            run.ob("N2", unknown is not None and len(unknown.items) == 2, f"{t} default row is a (name, description) pair",
+                   "unknown codes no longer map to a (name, description) pair (unpacking would fail)", module=mod, node=tnode,
+                   func=t, construct=f"{t} default")
+            continue
         if not isinstance(dv, DictV):
             raise AnalysisError(f"N2: {t} is not a defaultdict(<factory>, {{...}}) literal")
         seen = {}
